@@ -70,6 +70,8 @@ type ScriptedStore struct {
 	Certs map[string][]*x509.Certificate // "type:name"
 	Fail  map[string]bool                // stores that cannot be loaded
 	Log   []StoreCall
+	// Gate, if set, is called at the start of every load (a lens may hold one caller there: see lens.concurrently)
+	Gate func()
 }
 
 func NewScriptedStore() *ScriptedStore {
@@ -82,6 +84,9 @@ func (s *ScriptedStore) Put(typ, name string, certs ...*x509.Certificate) {
 
 func (s *ScriptedStore) GetCertificates(ctx context.Context, storeType truststore.Type, namedStore string) ([]*x509.Certificate, error) {
 	key := string(storeType) + ":" + namedStore
+	if s.Gate != nil {
+		s.Gate()
+	}
 	d := rt.Point(rt.Op{Kind: "truststore.get", Aux: key})
 	if d.Err != nil || s.Fail[key] {
 		s.Log = append(s.Log, StoreCall{string(storeType), namedStore, true})
@@ -133,9 +138,18 @@ type ScriptedValidator struct {
 	// Faulted[i]: consultation i ended with an injected transport fault (not with the scripted answer)
 	Faulted []bool
 	Legacy  int // calls through the deprecated interface
+	// Gate, if set, is called at the start of every consultation
+	Gate func()
+	// AnswerFor, if set, decides the result vector of a consultation from its options (nil = the scripted Results)
+	AnswerFor func(opts revocation.ValidateContextOptions) []revresult.Result
 }
 
 func (v *ScriptedValidator) answer(chain []*x509.Certificate) ([]*revresult.CertRevocationResult, error) {
+	return v.answerWith(chain, v.Results)
+}
+
+// answerWith: results is this consultation's vector (its own: consultations may overlap).
+func (v *ScriptedValidator) answerWith(chain []*x509.Certificate, results []revresult.Result) ([]*revresult.CertRevocationResult, error) {
 	d := rt.Point(rt.Op{Kind: "revocation.validate"})
 	v.Faulted = append(v.Faulted, d.Err != nil)
 	if d.Err != nil {
@@ -150,10 +164,10 @@ func (v *ScriptedValidator) answer(chain []*x509.Certificate) ([]*revresult.Cert
 	var out []*revresult.CertRevocationResult
 	for i := range chain {
 		r := revresult.ResultOK
-		if i < len(v.Results) {
-			r = v.Results[i]
+		if i < len(results) {
+			r = results[i]
 		}
-		if i == len(chain)-1 && len(v.Results) == 0 {
+		if i == len(chain)-1 && len(results) == 0 {
 			r = revresult.ResultNonRevokable
 		}
 		m := revresult.RevocationMethodOCSP
@@ -183,6 +197,14 @@ func (v *ScriptedValidator) answer(chain []*x509.Certificate) ([]*revresult.Cert
 
 func (v *ScriptedValidator) ValidateContext(ctx context.Context, opts revocation.ValidateContextOptions) ([]*revresult.CertRevocationResult, error) {
 	v.Calls = append(v.Calls, opts)
+	if v.Gate != nil {
+		v.Gate()
+	}
+	if v.AnswerFor != nil {
+		if r := v.AnswerFor(opts); r != nil {
+			return v.answerWith(opts.CertChain, r)
+		}
+	}
 	return v.answer(opts.CertChain)
 }
 
@@ -191,7 +213,16 @@ type LegacyClient struct{ V *ScriptedValidator }
 
 func (l LegacyClient) Validate(certChain []*x509.Certificate, signingTime time.Time) ([]*revresult.CertRevocationResult, error) {
 	l.V.Legacy++
-	l.V.Calls = append(l.V.Calls, revocation.ValidateContextOptions{CertChain: certChain, AuthenticSigningTime: signingTime})
+	opts := revocation.ValidateContextOptions{CertChain: certChain, AuthenticSigningTime: signingTime}
+	l.V.Calls = append(l.V.Calls, opts)
+	if l.V.Gate != nil {
+		l.V.Gate()
+	}
+	if l.V.AnswerFor != nil {
+		if r := l.V.AnswerFor(opts); r != nil {
+			return l.V.answerWith(certChain, r)
+		}
+	}
 	return l.V.answer(certChain)
 }
 
@@ -206,10 +237,14 @@ type ScriptedPlugin struct {
 	VerifyErr error
 	Requests  []*pf.VerifySignatureRequest
 	MetaCalls int
+	Gate      func() // if set, called at the start of every metadata request
 }
 
 func (p *ScriptedPlugin) GetMetadata(ctx context.Context, req *pf.GetMetadataRequest) (*pf.GetMetadataResponse, error) {
 	p.MetaCalls++
+	if p.Gate != nil {
+		p.Gate()
+	}
 	if d := rt.Point(rt.Op{Kind: "plugin.metadata"}); d.Err != nil {
 		return nil, fmt.Errorf("simulated: plugin failed: %w", d.Err)
 	}
